@@ -123,53 +123,77 @@ type TransitScript struct {
 	Events []Event  `json:"events"`
 }
 
-// RunTransit runs the script on a fresh real agent with harness-played
-// neighbours and returns what the agent did after every event.
-func RunTransit(sc TransitScript) ([]AObs, error) {
-	n, err := NewNode(sc.Me, nil)
+// TransitRunner drives one real agent event by event.
+type TransitRunner struct {
+	n      *Node
+	locals []uint64
+}
+
+func NewTransitRunner(me int, locals []uint64) (*TransitRunner, error) {
+	n, err := NewNode(me, nil)
 	if err != nil {
 		return nil, err
 	}
-	defer n.Close()
 	sm := n.A.VerifStreamManager()
-	for _, id := range sc.Locals {
+	for _, id := range locals {
 		if _, err := sm.AcceptStream(id, 5000+id, identity.AgentID{0xEE}, "local", 1); err != nil {
+			n.Close()
 			return nil, err
 		}
 	}
+	return &TransitRunner{n: n, locals: locals}, nil
+}
+
+func (t *TransitRunner) Close() { t.n.Close() }
+
+// Step applies one event and reports what the agent did.
+func (t *TransitRunner) Step(ev Event) AObs {
+	n := t.n
+	var o AObs
+	switch ev.Ev {
+	case "frame":
+		pf, ok := ev.Frame.Encode()
+		if ok {
+			n.Deliver(ev.From, pf)
+		}
+	case "connect":
+		n.Connect(ev.Peer, ev.Dialer)
+	case "disconnect":
+		n.Disconnect(ev.Peer)
+	case "setfail":
+		n.SetFail(ev.Peer, ev.Fail)
+	}
+	o.Out = []Sent{}
+	for _, rs := range n.Collect() {
+		f, derr := Decode(rs.F)
+		if derr != nil {
+			o.Note += fmt.Sprintf("undecodable frame type 0x%02x to %d: %v; ", rs.F.Type, rs.To, derr)
+			continue
+		}
+		o.Out = append(o.Out, Sent{To: rs.To, Frame: f})
+	}
+	o.TCP, o.UDP, o.ICMP = n.Snap("tcp"), n.Snap("udp"), n.Snap("icmp")
+	o.Locals = []LocalObs{}
+	sm := n.A.VerifStreamManager()
+	for _, id := range t.locals {
+		if s := sm.GetStream(id); s != nil {
+			o.Locals = append(o.Locals, LocalObs{ID: id, BufLen: len(s.ReadBuffer())})
+		}
+	}
+	return o
+}
+
+// RunTransit runs the script on a fresh real agent with harness-played
+// neighbours and returns what the agent did after every event.
+func RunTransit(sc TransitScript) ([]AObs, error) {
+	t, err := NewTransitRunner(sc.Me, sc.Locals)
+	if err != nil {
+		return nil, err
+	}
+	defer t.Close()
 	var obs []AObs
 	for _, ev := range sc.Events {
-		var o AObs
-		switch ev.Ev {
-		case "frame":
-			pf, ok := ev.Frame.Encode()
-			if ok {
-				n.Deliver(ev.From, pf)
-			}
-		case "connect":
-			n.Connect(ev.Peer, ev.Dialer)
-		case "disconnect":
-			n.Disconnect(ev.Peer)
-		case "setfail":
-			n.SetFail(ev.Peer, ev.Fail)
-		}
-		o.Out = []Sent{}
-		for _, rs := range n.Collect() {
-			f, derr := Decode(rs.F)
-			if derr != nil {
-				o.Note += fmt.Sprintf("undecodable frame type 0x%02x to %d: %v; ", rs.F.Type, rs.To, derr)
-				continue
-			}
-			o.Out = append(o.Out, Sent{To: rs.To, Frame: f})
-		}
-		o.TCP, o.UDP, o.ICMP = n.Snap("tcp"), n.Snap("udp"), n.Snap("icmp")
-		o.Locals = []LocalObs{}
-		for _, id := range sc.Locals {
-			if s := sm.GetStream(id); s != nil {
-				o.Locals = append(o.Locals, LocalObs{ID: id, BufLen: len(s.ReadBuffer())})
-			}
-		}
-		obs = append(obs, o)
+		obs = append(obs, t.Step(ev))
 	}
 	return obs, nil
 }
